@@ -6,7 +6,7 @@
 # DEGRADED (nothing counted as proved, bounded stand-ins decide), never as an
 # alarm. File name: H<nn>-<what>.diff; the property is given in the table below.
 cd /verif
-declare -A prop=( [H01]=C05 [H02]=C10 [H03]=C15 [H04]=C03 [H05]=C06 [H06]=C13 [H07]=C07 [H08]=C17 )
+declare -A prop=( [H01]=C05 [H02]=C10 [H03]=C15 [H04]=C03 [H05]=C06 [H06]=C13 [H07]=C07 [H08]=C17 [H09]=C05 )
 fail=0
 for f in /verif/selftest/harmless/*.diff; do
   h=$(basename $f | cut -d- -f1); id=${prop[$h]}
